@@ -454,6 +454,11 @@ var editKinds = []string{
 	"toggle-strict", "toggle-without-rowid",
 	"add-fk", "drop-fk", "change-fk-action",
 	"drop-table", "add-table", "drop-all-add-one", "move-col-last",
+	// NOT NULL over existing NULLs: the column is nullable and has a DEFAULT already
+	"notnull-keep-default", "notnull-change-default", "notnull-change-type",
+	// generated columns changing kind
+	"gen-virtual-to-regular", "gen-virtual-to-regular-default", "gen-stored-to-regular", "gen-stored-to-regular-default",
+	"regular-to-virtual", "regular-to-stored", "gen-flip-kind", "gen-change-expr",
 }
 
 func applyEdit(r *rng.R, s *Schema, kind string, ti int) bool {
@@ -479,7 +484,130 @@ func applyEdit(r *rng.R, s *Schema, kind string, ti int) bool {
 		c.NotNull, c.Default = false, ""
 		return c
 	}
+	pickWhere := func(pred func(c *Col) bool) *Col {
+		var cand []int
+		for i := range t.Cols {
+			if pred(&t.Cols[i]) {
+				cand = append(cand, i)
+			}
+		}
+		if len(cand) == 0 {
+			return nil
+		}
+		return &t.Cols[cand[r.Intn(len(cand))]]
+	}
+	nullableWithDefault := func(c *Col) bool {
+		return c.Gen == "" && !has(t.PK, c.Name) && !c.NotNull && c.Default != "" && !strings.Contains(c.Default, "CURRENT_")
+	}
+	genOfKind := func(stored bool) func(c *Col) bool {
+		return func(c *Col) bool { return c.Gen != "" && c.Stored == stored }
+	}
 	switch kind {
+	case "notnull-keep-default":
+		c := pickWhere(nullableWithDefault)
+		if c == nil {
+			return false
+		}
+		c.NotNull = true
+	case "notnull-change-default":
+		c := pickWhere(nullableWithDefault)
+		if c == nil {
+			return false
+		}
+		c.NotNull = true
+		old := c.Default
+		for i := 0; i < 8 && (c.Default == old || strings.Contains(c.Default, "CURRENT_")); i++ {
+			c.Default = defaultFor(r, c.Type)
+		}
+		if t.Strict && strings.HasPrefix(c.Default, "'") && affinity(c.Type) != "text" {
+			c.Default = "3"
+		}
+		if c.Default == old {
+			return false
+		}
+	case "notnull-change-type":
+		// nullability and type change together, the DEFAULT clause stays as it is
+		c := pickWhere(func(c *Col) bool { return nullableWithDefault(c) && !referencedBy(s, t, c.Name) })
+		if c == nil || t.Strict {
+			return false
+		}
+		for _, f := range t.FKs {
+			if has(f.Cols, c.Name) {
+				return false
+			}
+		}
+		for _, g := range t.Cols {
+			if g.GenDep == c.Name {
+				return false
+			}
+		}
+		c.NotNull = true
+		if affinity(c.Type) == "text" {
+			c.Type = "blob"
+		} else {
+			c.Type = "text"
+		}
+	case "gen-virtual-to-regular", "gen-virtual-to-regular-default", "gen-stored-to-regular", "gen-stored-to-regular-default":
+		c := pickWhere(genOfKind(strings.HasPrefix(kind, "gen-stored")))
+		if c == nil {
+			return false
+		}
+		c.Gen, c.Stored, c.GenDep, c.NotNull = "", false, "", false
+		if strings.HasSuffix(kind, "-default") {
+			c.Default = defaultFor(r, c.Type)
+			if strings.Contains(c.Default, "CURRENT_") || (t.Strict && strings.HasPrefix(c.Default, "'") && affinity(c.Type) != "text") {
+				c.Default = "3"
+			}
+			c.NotNull = r.Bool()
+		}
+	case "regular-to-virtual", "regular-to-stored":
+		c := pickWhere(func(c *Col) bool {
+			if c.Gen != "" || has(t.PK, c.Name) || referencedBy(s, t, c.Name) {
+				return false
+			}
+			for _, f := range t.FKs {
+				if has(f.Cols, c.Name) {
+					return false
+				}
+			}
+			for _, g := range t.Cols {
+				if g.GenDep == c.Name {
+					return false
+				}
+			}
+			return true
+		})
+		if c == nil {
+			return false
+		}
+		var dep *Col
+		for i := range t.Cols {
+			if t.Cols[i].Gen == "" && t.Cols[i].Name != c.Name {
+				dep = &t.Cols[i]
+				break
+			}
+		}
+		if dep == nil {
+			return false
+		}
+		c.Gen, c.Stored, c.GenDep = genExprFor(*dep), kind == "regular-to-stored", dep.Name
+		c.Default, c.NotNull = "", false
+	case "gen-flip-kind":
+		c := pickWhere(func(c *Col) bool { return c.Gen != "" })
+		if c == nil {
+			return false
+		}
+		c.Stored = !c.Stored
+	case "gen-change-expr":
+		c := pickWhere(func(c *Col) bool { return c.Gen != "" })
+		if c == nil {
+			return false
+		}
+		if strings.HasPrefix(c.Gen, "lower(") {
+			c.Gen = "upper(" + strings.TrimPrefix(c.Gen, "lower(")
+		} else {
+			c.Gen = c.Gen + " + 1"
+		}
 	case "add-col-null":
 		t.Cols = append(t.Cols, newCol())
 	case "add-col-default":
